@@ -3,6 +3,9 @@
 package c05
 
 import (
+	"encoding/json"
+	"net/http/httptest"
+	"strings"
 	"context"
 	"fmt"
 	"log/slog"
@@ -290,7 +293,9 @@ func Run(r *ev.Run) {
 		g := gen.New(rng.For(r.Seed, "c05", i), gen.Opts{})
 		env := &gen.Env{}
 		for k := g.R.Intn(3); k > 0; k-- {
-			env.Atomics = append(env.Atomics, zap.NewAtomicLevelAt(zapcore.Level(g.R.Intn(7)-1)))
+			lv := zapcore.Level(g.R.Intn(7) - 1)
+			env.Atomics = append(env.Atomics, zap.NewAtomicLevelAt(lv))
+			g.AtomicShadow = append(g.AtomicShadow, lv)
 		}
 		depth := g.R.Range(0, r.N(4, 6))
 		root := g.Composition(env, depth)
@@ -394,14 +399,40 @@ func Run(r *ev.Run) {
 		}
 		// AtomicLevel histories: change shared levels, every logger derived from them must follow
 		for h := 1; h <= 3 && !violated && len(env.Atomics) > 0; h++ {
-			for _, a := range env.Atomics {
+			for ai := range env.Atomics {
 				if g.R.P(2, 3) {
 					nl := zapcore.Level(g.R.Intn(9) - 2)
 					if g.R.P(1, 10) {
 						nl = zapcore.Level(int8(g.R.Intn(256) - 128))
 					}
-					a.SetLevel(nl)
+					// the level is changed through one of the routes a program has; every logger built
+					// from this AtomicLevel earlier must follow
+					route := "SetLevel"
+					if nl >= zapcore.DebugLevel && nl <= zapcore.FatalLevel {
+						route = rng.Pick(g.R, []string{"SetLevel", "UnmarshalText", "json.Unmarshal", "HTTP PUT"})
+					}
+					var rerr error
+					switch route {
+					case "SetLevel":
+						env.Atomics[ai].SetLevel(nl)
+					case "UnmarshalText":
+						rerr = (&env.Atomics[ai]).UnmarshalText([]byte(nl.String()))
+					case "json.Unmarshal":
+						rerr = json.Unmarshal([]byte(`"`+nl.CapitalString()+`"`), &env.Atomics[ai])
+					case "HTTP PUT":
+						rec := httptest.NewRecorder()
+						env.Atomics[ai].ServeHTTP(rec, httptest.NewRequest("PUT", "/", strings.NewReader(`{"level":"`+nl.String()+`"}`)))
+						if rec.Code != 200 {
+							rerr = fmt.Errorf("status %d", rec.Code)
+						}
+					}
+					if rerr != nil {
+						fail(fmt.Sprintf("changing the shared level to %v through %s failed: %v", nl, route, rerr))
+						break
+					}
+					g.AtomicShadow[ai] = nl
 					r.Count("atomic_level_changes", 1)
+					r.SetAdd("level_change_routes", route)
 				}
 			}
 			lv := []int{-128, -2, -1, 0, 1, 2, 3, 4, 5, 6, 50, 127}
